@@ -103,6 +103,7 @@ struct SimFs {
   int faults_fired = 0;
   // FILE* layer (rules save/load by path)
   int64_t fwrite_fail_after_bytes = -1;  // disk full: bytes accepted before short writes start
+  int64_t noatime_refused = 0;           // opens refused because they asked for O_NOATIME on a file the caller does not own
   int64_t fwritten = 0;
   bool fclose_fails = false;
   bool refuse_foreign_close = false;     // do not really close descriptors yara does not own (keeps the harness's files intact)
